@@ -17,8 +17,12 @@ type verifFileMode uint32
 
 const (
 	verifModePerm verifFileMode = 0o777
+	verifO_RDONLY               = 0
+	verifO_WRONLY               = 1
 	verifO_RDWR                 = 2
 	verifO_CREATE               = 64
+	verifO_TRUNC                = 512
+	verifO_APPEND               = 1024
 )
 
 var verifErrNotExist = errors.New("file does not exist")
@@ -65,9 +69,10 @@ func (fs *verifFileSystem) lookup(name string) *verifFileData {
 }
 
 type verifFile struct {
-	data   *verifFileData
-	off    int
-	closed bool
+	data       *verifFileData
+	off        int
+	closed     bool
+	appendMode bool // O_APPEND: every write goes to the end
 }
 
 func verifMkdirAll(string, verifFileMode) error { return nil }
@@ -83,7 +88,12 @@ func verifOpenFile(name string, flag int, _ verifFileMode) (*verifFile, error) {
 		f.dExists, f.d = true, nil // directory entries are treated as immediately durable (stated assumption)
 		vfs.journal = append(vfs.journal, verifEffect{kind: 'c', file: f})
 	}
-	return &verifFile{data: f}, nil
+	h := &verifFile{data: f, appendMode: flag&verifO_APPEND != 0}
+	if flag&verifO_TRUNC != 0 && len(f.v) > 0 {
+		// opening with O_TRUNC empties the file at once (an effect of its own in the journal)
+		h.Truncate(0)
+	}
+	return h, nil
 }
 
 func verifReadFile(name string) ([]byte, error) {
@@ -124,6 +134,9 @@ func (f *verifFile) Seek(offset int64, whence int) (int64, error) {
 func (f *verifFile) Write(p []byte) (int, error) {
 	if f.closed {
 		return 0, errors.New("file already closed")
+	}
+	if f.appendMode {
+		f.off = len(f.data.v)
 	}
 	end := f.off + len(p)
 	v := f.data.v
